@@ -96,6 +96,11 @@ MISSED_FIRST = {  # the property's own check missed it before it was strengthene
     "C13-k": "C13: the documented call form with the azimuth omitted (= 0) for PerturbedDroplet3D: distance, curvature and interface_position must equal the explicit form; before that only the broken translation was reported",
     "C16-k": "C16: grids with more than 2**14 Fourier modes (151 x 149, 27 x 29 x 31) for the invariances of the SMOOTHED spectrum under reflection, translation and axis permutation (`large_grids`)",
     "C19-l": "C19: the same droplets rendered with a SHARP interface (binary image, two distinct values) through the whole table",
+    "C05-k": "C05: an intensity map whose upper level is exactly 0 (levels -1 / 0 supplied) in the cycled maps",
+    "C11-l": "C11: in-place merge of a droplet with itself (same object / shared record): volume doubles, centre stays; before that only the broken translation was reported",
+    "C17-k": "C17: structure-factor methods on grids with mixed periodicity (3-D, first axis not periodic) under translations along every periodic axis",
+    "C18-l": "C18: the same integer intensities stored with an INTEGER dtype (256 levels or more): thresholds do not depend on the dtype",
+    "C20-l": "C20: `remove_small` keeps the surviving OBJECTS (identity, order), stated directly on the implementation; before that the diverging alias dump was reported without a failing input",
 }
 rows = []
 for d in sorted(ROOT.iterdir()):
